@@ -487,7 +487,12 @@ static int Campaign(const Inputs& in, const fs::path& scratch, bool big, Totals&
         out.flush();
         fflush(stdout);
         if (ck::ThreadCount() != 1) {
-            if (getenv("C20_DEBUG_THREADS")) { std::string cmd = "for t in /proc/" + std::to_string(getpid()) + "/task/*; do cat $t/comm; done 1>&2; gdb -p " + std::to_string(getpid()) + " -batch -ex 'thread apply all bt 8' 2>/dev/null | grep '^#' | cut -c1-140 1>&2"; (void)!system(cmd.c_str()); }
+            {   // name the stray threads (diagnostics)
+                std::string names;
+                for (const auto& e : std::filesystem::directory_iterator("/proc/self/task")) { std::ifstream c(e.path() / "comm"); std::string n; std::getline(c, n); names += n + " "; }
+                out.sample("not single-threaded before fork: " + names);
+                fprintf(stderr, "C20: not single-threaded before fork: %s\n", names.c_str());
+            }
             out.count("harness_not_single_threaded");
             return; // fork would be unsound
         }
